@@ -239,6 +239,13 @@ func checkC03(src string) core.Outcome {
 		return core.Outcome{Key: "panic:" + short(p, 80), Desc: fmt.Sprintf("decorate+print panicked: %s\ninput: %q", p, src)}
 	}
 	if err != nil {
+		// known (F1): gofmt's own output for this input does not re-parse; when the file has a parenthesised
+		// import group format.Node re-parses the printed text and reports exactly that as an internal error
+		if core.IsKnown("C03-F1-gofmt-output-does-not-reparse") && strings.Contains(err.Error(), "format.Node internal error") {
+			if ref, ferr := gofmt(src); ferr == nil && !gen.Parses(ref) {
+				return core.Outcome{Known: "C03-F1-gofmt-output-does-not-reparse", Desc: fmt.Sprintf("print failed re-parsing its own output (as gofmt's output would): %v\ninput: %q", err, src)}
+			}
+		}
 		return core.Outcome{Key: "error", Desc: fmt.Sprintf("decorate+print returned %v\ninput: %q", err, src)}
 	}
 	ref, ferr := gofmt(src)
@@ -291,10 +298,9 @@ func checkC03(src string) core.Outcome {
 		// known: blank lines of CRLF input are not recognised (a whitespace-only loss), which merges a
 		// //go:build line with the comment group after it; go/printer then hoists the //go:build line.
 		// Only directive comments are displaced and the LF version of the same file passes.
-		if core.IsKnown("C03-F3-crlf-go-build-hoisting") && strings.Contains(src, "\r\n") {
-			lf := strings.ReplaceAll(src, "\r\n", "\n")
-			if commentSubsequence(dropDirectives(outComments), dropDirectives(refComments)) && checkC03(lf).OK {
-				return core.Outcome{Known: "C03-F3-crlf-go-build-hoisting", Desc: desc("//go:build line hoisted for CRLF input")}
+		if core.IsKnown("C03-F3-crlf-go-build-hoisting") {
+			if lf := emptyBlankLines(src); lf != src && commentSubsequence(dropDirectives(outComments), dropDirectives(refComments)) && checkC03(lf).OK {
+				return core.Outcome{Known: "C03-F3-crlf-go-build-hoisting", Desc: desc("//go:build line hoisted because a non-empty blank line was not recognised")}
 			}
 		}
 		if core.IsKnown("C03-F2-directive-order-in-doc-comment") {
